@@ -37,7 +37,24 @@ def main():
     mod = importlib.import_module(f"harness.props.{a.prop.lower()}")
     if a.replay:
         sys.exit(mod.replay(a.replay))
-    sys.exit(mod.run(a.tier, a.seed))
+    try:
+        rc = mod.run(a.tier, a.seed)
+    except Exception:  # noqa -- the harness itself fell over on this tree: the property is not shown to hold
+        import json
+        import traceback
+        tb = traceback.format_exc()
+        d = os.path.join(os.path.dirname(os.path.dirname(os.path.abspath(__file__))), "evidence", "replay")
+        os.makedirs(d, exist_ok=True)
+        path = os.path.join(d, f"{a.prop.upper()}-harness-crash.json")
+        with open(path, "w") as f:
+            json.dump({"property": a.prop.upper(), "tier": a.tier, "seed": a.seed,
+                       "broken_obligation": "the check's harness runs to completion against this tree "
+                                            "(an exception escaped while driving xyzpy or evaluating the model)",
+                       "traceback": tb[-6000:]}, f, indent=1)
+        sys.stderr.write(tb)
+        print(f"VIOLATION property={a.prop.upper()} replay={path} no-failing-input-found")
+        rc = 1
+    sys.exit(rc)
 
 
 if __name__ == "__main__":
